@@ -188,7 +188,11 @@ def w2b(ctx, rep):
             U.elem_bounds[f] = mx - 1
     # the pending-bit bound itself: flush_whole_bytes loops while bits_in >= 8
     fw = F.body(P + "bit_writer::BitWriter::flush_whole_bytes")
-    fl = [flow.describe(fw, fw.term(sb)["d"], names=True) for sb in fw.normal_blocks() if fw.term(sb)["k"] == "switch"]
+    from ..common import macro_names as _mn
+    _AS = ("assert", "assert_eq", "assert_ne", "debug_assert", "debug_assert_eq", "debug_assert_ne")
+    from .c04 import _panics
+    fl = [flow.describe(fw, fw.term(sb)["d"], names=True) for sb in sorted(fw.normal_blocks()) if fw.term(sb)["k"] == "switch" and not any(m in _AS for m in _mn(fw.term(sb).get("exp")))
+          and not any(_panics(fw, x) for x in [y for _, y in fw.term(sb)["targets"]] + [fw.term(sb)["otherwise"]])]
     wr = F.body(P + "bit_writer::BitWriter::write")
     calls_flush = [bb for bb, t in wr.calls() if strip_generics(callee_def(t)).endswith("flush_whole_bytes")]
     rep.add("W2", "summary:at-most-7-bits-pending", fl in (["Ge(var(self).bits_in, K8)"], ["Gt(var(self).bits_in, K7)"]) and len(calls_flush) == 1, "%s:%s" % (fw.file, fw.line),
@@ -450,8 +454,11 @@ def w6(F, rep):
     b = F.body(name)
     where = "%s:%s" % (b.file, b.line)
     ws = [(bb, t) for bb, t in b.calls() if strip_generics(callee_def(t)).endswith("BitWriter::write")]
+    from ..common import macro_names as _mn
+    _AS = ("assert", "assert_eq", "assert_ne", "debug_assert", "debug_assert_eq", "debug_assert_ne")
     other = [strip_generics(callee_def(t)) for bb, t in b.calls() if not strip_generics(callee_def(t)).endswith("BitWriter::write")
-             and not re.search(r"convert::(From::from|Into::into)$", strip_generics(callee_def(t)))]
+             and not re.search(r"convert::(From::from|Into::into)$", strip_generics(callee_def(t)))
+             and not any(m in _AS for m in _mn(t.get("exp")))]          # assertion machinery is looked after by the failure-site rules
     if len(ws) != 1 or other:
         rep.add("W6", "pad-replays-captured-bits", False, where, "UNRECOGNISED-IDIOM: expected exactly one BitWriter::write call, found %d (+%s)" % (len(ws), other[:2]))
         return
